@@ -210,9 +210,9 @@ Section NetEff.
   Lemma emit_eff s cur upon s' o : emit_on s cur upon = (s', o) -> pre s ->
     (forall w, In w (emits_of o) -> Q w) -> post s s' o.
   Proof.
-    unfold Node.emit_on. intros H Hpre Hq.
-    destruct (if cur =? b_round upon then _ else _) as [r p].
-    destruct (Node.agg_partial _ _ _ _ _ _ _ _) as [s1 o1] eqn:E. inversion H; subst.
+    intros H Hpre Hq. apply emit_on_shape in H.
+    destruct H as [[-> [-> _]]|[r [p [o1 [_ [_ [E ->]]]]]]].
+    { destruct Hpre. apply post_nop; auto. }
     apply post_cons; [|discriminate|intros ? ? ? ? Hx; inversion Hx; reflexivity].
     eapply agg_eff; [exact E|exact Hpre|]. apply Hq. simpl. left; reflexivity.
   Qed.
@@ -308,9 +308,8 @@ Section NetEff.
         exact (post_trans _ _ _ _ _ P1 (do_sync_eff _ _ _ _ _ E2 Hin Hpre1)).
       + inversion H; subst. exact P1.
     - destruct (s_running s); cbn [negb] in H; [|inversion H; subst; apply post_nop; auto].
-      destruct (if rho =? b_round (head s) then _ else _) as [r p].
+      destruct (sign_target rho (head s)) as [r p].
       destruct (if b_round (head s) + 1 <? rho then _ else _) as [s1 o1] eqn:E1.
-      destruct (Node.agg_partial _ _ _ _ _ _ _ _) as [s2 o2] eqn:E2. inversion H; subst.
       set (s0 := mkS (s_now s) (s_chain s) (s_cache s) rho (s_timers s) (s_grp s) (s_pending s) true) in *.
       assert (Hpre0 : pre s0) by (split; [exact Hc|exact Hg]).
       assert (P1 : post s0 s1 o1).
@@ -318,6 +317,9 @@ Section NetEff.
         - eapply do_sync_eff; [exact E1|exact Hin|exact Hpre0].
         - inversion E1; subst. destruct Hpre0. apply post_nop; auto. }
       assert (Hpre1 : pre s1) by (destruct P1 as [A [B _]]; split; assumption).
+      destruct (negb (may_sign C s0 r)).
+      { inversion H; subst. eapply post_from; [|exact P1]. reflexivity. }
+      destruct (Node.agg_partial _ _ _ _ _ _ _ _) as [s2 o2] eqn:E2. inversion H; subst.
       assert (P2 : post s1 s' o2).
       { eapply agg_eff; [exact E2|exact Hpre1|]. apply Hq. simpl. left; reflexivity. }
       eapply post_from; [|apply post_cons; [exact (post_trans _ _ _ _ _ P1 P2)|discriminate|]]; [reflexivity|].
@@ -416,7 +418,7 @@ Section NetSys.
   Definition ev_ok (y : sys) (e : event) : Prop :=
     match e with
     | EFire | EStop => True
-    | ETick rho sy | ETickSF rho sy => rho = cr C (y_time y) /\ stream_ok y sy   (* the ticker reads the clock *)
+    | ETick rho sy | ETickSF rho sy => stream_ok y sy   (* a tick of ANY round: also a stale one, handled late *)
     | ERestart sy => stream_ok y sy
     | EPart r p sg => In (r, p, sg) (y_pool y)
     | ETransition _ g' => okgrp thr_of g'       (* a completed resharing hands the node its new group *)
@@ -444,7 +446,7 @@ Section NetSys.
     end.
 
   Definition node_ok (y : sys) (s : nstate) : Prop :=
-    s_now s = y_time y /\ inv4 C s /\ grp_ok thr_of s /\
+    s_now s = y_time y /\ grp_ok thr_of s /\
     cache_in (on_wire y) (s_cache s) /\
     (forall b, In b (s_chain s) -> b = gen \/ exists b', In b' (y_known y) /\ b_round b' = b_round b) /\
     chain_ok C vrec (s_chain s) /\ s_chain s <> [] /\ genesis_of (s_chain s) = gen.
@@ -470,14 +472,14 @@ Section NetSys.
 
   Lemma chain_timely y s : sys_inv y -> node_ok y s -> forall b, In b (s_chain s) -> b_round b <= cr C (y_time y).
   Proof.
-    intros Hi [_ [_ [_ [_ [Hc _]]]]] b Hb. destruct (Hc b Hb) as [->|[b' [Hk E]]].
+    intros Hi [_ [_ [_ [Hc _]]]] b Hb. destruct (Hc b Hb) as [->|[b' [Hk E]]].
     - rewrite gen_round. destruct Hi as [HT _]. pose proof (current_round_ge_1 _ _ _ Hp Hg HT). unfold cr. lia.
     - rewrite <- E. apply known_timely; assumption.
   Qed.
 
   Lemma head_timely y s : sys_inv y -> node_ok y s -> b_round (head s) <= cr C (y_time y).
   Proof.
-    intros Hi Hs. pose proof Hs as [_ [_ [_ [_ [_ [_ [Hne _]]]]]]].
+    intros Hi Hs. pose proof Hs as [_ [_ [_ [_ [_ [Hne _]]]]]].
     apply (chain_timely y s Hi Hs). unfold head. destruct (s_chain s); [contradiction|left; reflexivity].
   Qed.
 
@@ -493,8 +495,8 @@ Section NetSys.
 
   Lemma node_ok_ext y y' s : ext y y' -> node_ok y s -> node_ok y' s.
   Proof.
-    intros [Et [Ep Ek]] [N1 [N2 [N3 [N6 [N7 [N8 [N9 N10]]]]]]].
-    split; [congruence|]. split; [exact N2|]. split; [exact N3|]. split; [|split; [|split; [exact N8|split; [exact N9|exact N10]]]].
+    intros [Et [Ep Ek]] [N1 [N3 [N6 [N7 [N8 [N9 N10]]]]]].
+    split; [congruence|]. split; [exact N3|]. split; [|split; [|split; [exact N8|split; [exact N9|exact N10]]]].
     - intros e He isg Hi. apply Ep. exact (N6 e He isg Hi).
     - intros b Hb. destruct (N7 b Hb) as [->|[b' [Hk E]]]; [left; reflexivity|right; exists b'; auto].
   Qed.
@@ -509,8 +511,8 @@ Section NetSys.
     vrec (b_round b) (b_prev b) (b_sig b) = true -> exists b', In b' (y_known y) /\ b_round b' = b_round b.
   Proof.
     destruct e as [d|d| |rho [bs|]|rho [bs|]|r p sg| |[bs|]|tg g']; simpl; try (intros _ b []).
-    - intros [_ H] b Hb Hv. exact (H bs eq_refl b Hb Hv).
-    - intros [_ H] b Hb Hv. exact (H bs eq_refl b Hb Hv).
+    - intros H b Hb Hv. exact (H bs eq_refl b Hb Hv).
+    - intros H b Hb Hv. exact (H bs eq_refl b Hb Hv).
     - intros H b Hb Hv. exact (H bs eq_refl b Hb Hv).
   Qed.
 
@@ -522,14 +524,6 @@ Section NetSys.
     intros H Hq. apply Hq; exact H.
   Qed.
 
-  Lemma ev_adm y s e : sys_inv y -> node_ok y s -> ev_ok y e -> adm C s e.
-  Proof.
-    intros Hi Hs He. pose proof (head_timely y s Hi Hs) as Hh. destruct Hs as [N1 _].
-    destruct e as [d|d| |rho sy|rho sy|r p sg| |sy|tg g']; simpl in *; try exact I; try contradiction.
-    - destruct He as [-> _]. rewrite N1. split; [lia|]. lia.
-    - destruct He as [-> _]. rewrite N1. split; [lia|]. lia.
-  Qed.
-
   Lemma node_step_inv y j e s : sys_inv y -> nth_error (y_nodes y) j = Some s -> ev_ok y e ->
     sys_inv (node_step y j e).
   Proof.
@@ -539,11 +533,10 @@ Section NetSys.
     set (y' := mkSys (y_time y) (upd (y_nodes y) j s') (y_pool y ++ emits_of o) (y_known y ++ puts_of o)).
     pose proof Hi as [HT [Hn [Hk Hpool]]].
     pose proof (nth_error_Forall _ _ _ _ Hn Hnth) as Hs.
-    pose proof Hs as [N1 [N2 [N3 [N6 [N7 [N8 [N9 N10]]]]]]].
+    pose proof Hs as [N1 [N3 [N6 [N7 [N8 [N9 N10]]]]]].
     assert (Hext : ext y y').
     { split; [reflexivity|]. split; intros x Hx; apply in_or_app; left; exact Hx. }
-    pose proof (ev_adm y s e Hi Hs He) as Hadm.
-    destruct (step_emits_timely C idx_of vpart recov vrec own_psig Hp Hg _ _ _ _ N2 Hadm E) as [Hi' Het].
+    pose proof (step_emits_timely C idx_of vpart recov vrec own_psig _ _ _ _ E) as Het.
     assert (Hpost : post idx_of vpart vrec (on_wire y') thr_of (ev_stream e) s s' o).
     { eapply (step_eff C idx_of vpart recov vrec own_psig vrec_unchained recov_sound); [exact E| | |].
       - split; [|exact N3]. intros e0 He0 isg Hisg. apply in_or_app; left. exact (N6 e0 He0 isg Hisg).
@@ -555,7 +548,7 @@ Section NetSys.
     - apply Forall_upd.
       + rewrite Forall_forall in *. intros x Hx. apply (node_ok_ext y y'); [exact Hext|auto].
       + unfold node_ok.
-        split; [cbn [y_time y']; congruence|]. split; [exact Hi'|]. split; [exact Pg|]. split; [exact Pc|].
+        split; [cbn [y_time y']; congruence|]. split; [exact Pg|]. split; [exact Pc|].
         split; [|split; [|split]].
         * intros b Hb. rewrite Wc in Hb. apply in_app_or in Hb as [Hb|Hb].
           -- right. exists b. split; [|reflexivity]. apply in_or_app; right. rewrite puts_of_eq. apply in_rev; exact Hb.
@@ -586,10 +579,9 @@ Section NetSys.
       { unfold cr. apply current_round_mono; try assumption. lia. }
       split; [exact Hnd|]. split; [|split].
       + rewrite Forall_forall in *. intros s' Hs'. apply in_map_iff in Hs' as [s [<- Hs]].
-        destruct (Hn s Hs) as [N1 [N2 [N3 [N6 [N7 [N8 [N9 N10]]]]]]].
+        destruct (Hn s Hs) as [N1 [N3 [N6 [N7 [N8 [N9 N10]]]]]].
         unfold node_ok. cbn [y_time y_pool y_known advance_clock s_now s_grp s_cache s_chain].
-        split; [congruence|]. split.
-        { apply advance_inv4; [exact Hp|exact Hg|exact N2|exact Hd|]. unfold now_ok. rewrite N1. exact Hnd. }
+        split; [congruence|].
         split; [exact N3|]. split; [exact N6|].
         split; [exact N7|]. split; [exact N8|]. split; [exact N9|exact N10].
       + intros b Hb. exact (Hk b Hb).
@@ -648,8 +640,8 @@ Section NetSys.
         rewrite Hv in Hs. simpl in Hs. apply existsb_exists in Hs as [b' [Hb' Er]]. apply Z.eqb_eq in Er.
         exists b'. split; assumption. }
       destruct e as [d|d| |rho sy|rho sy|r p sg| |sy|tg g']; simpl; try discriminate; try exact I.
-      + apply andb_true_iff in H as [H1 H2]. split; [unfold cr; apply Z.eqb_eq; exact H1|apply Hserved; exact H2].
-      + apply andb_true_iff in H as [H1 H2]. split; [unfold cr; apply Z.eqb_eq; exact H1|apply Hserved; exact H2].
+      + apply Hserved; exact H.
+      + apply Hserved; exact H.
       + apply Hserved; exact H.
       + unfold okgrp. apply Z.eqb_eq; exact H.
     - apply existsb_exists in H as [x [Hx E]]. apply wire_eqb_eq in E. subst; exact Hx.
@@ -688,9 +680,7 @@ Section NetSys.
     - apply Forall_forall. intros s Hs. apply in_map_iff in Hs as [g [<- Hgin]].
       pose proof (Hgs g Hgin) as G1. unfold node_ok.
       cbn [s_now s_grp s_cache s_chain s_pending y_time y_known y_pool init_sys gp].
-      split; [reflexivity|]. split.
-      { unfold inv4. cbn [s_now s_cur s_timers]. split; [exact Hn|]. split; [|constructor].
-        pose proof (current_round_ge_1 _ _ _ Hp Hg Hn). unfold cr. lia. }
+      split; [reflexivity|].
       split; [split; cbn [s_grp s_pending]; [exact G1|intros ? ? E; discriminate]|].
       split; [intros e []|]. split; [intros b [<-|[]]; left; reflexivity|].
       split; [simpl; auto|]. split; [discriminate|reflexivity].
@@ -736,7 +726,7 @@ Section NetSys.
       thr_of P - Z.of_nat (length (F_of P)) <= Z.of_nat (length (filter (honest_sig P) I)).
   Proof.
     intros [_ [Hn [Hk _]]] s Hs b Hb Hne. rewrite Forall_forall in Hn.
-    destruct (Hn s Hs) as [_ [_ [_ [_ [N7 _]]]]].
+    destruct (Hn s Hs) as [_ [_ [_ [N7 _]]]].
     destruct (N7 b Hb) as [->|[b' [Hkb E]]]; [contradiction|].
     destruct (Hk b' Hkb) as [P [p [I [Hnd [Ht Hx]]]]]. rewrite E in Hx. exists P, p, I.
     split; [exact Hnd|]. split; [exact Ht|]. split; [exact Hx|].
@@ -769,7 +759,7 @@ Section NetSys.
       chain_ok C vrec (s_chain s) /\ genesis_of (s_chain s) = gen /\ grp_ok thr_of s.
   Proof.
     intros Hi Ha y s Hs. destruct (sys_safe gs y0 Hi Ha) as [_ [Hn _]]. rewrite Forall_forall in Hn.
-    destruct (Hn s Hs) as [_ [_ [G [_ [_ [Cc [_ Ge]]]]]]]. auto.
+    destruct (Hn s Hs) as [_ [G [_ [_ [Cc [_ Ge]]]]]]. auto.
   Qed.
 
   (* C02: any two honest nodes hold the same beacon for every round both hold *)
@@ -779,8 +769,8 @@ Section NetSys.
     forall b1 b2, In b1 (s_chain s1) -> In b2 (s_chain s2) -> b_round b1 = b_round b2 -> b1 = b2.
   Proof.
     intros [_ [Hn _]] s1 s2 H1 H2 b1 b2 Hb1 Hb2 Er. rewrite Forall_forall in Hn.
-    destruct (Hn s1 H1) as [_ [_ [_ [_ [_ [C1 [Ne1 G1]]]]]]].
-    destruct (Hn s2 H2) as [_ [_ [_ [_ [_ [C2 [Ne2 G2]]]]]]].
+    destruct (Hn s1 H1) as [_ [_ [_ [_ [C1 [Ne1 G1]]]]]].
+    destruct (Hn s2 H2) as [_ [_ [_ [_ [C2 [Ne2 G2]]]]]].
     pose proof (chain_ok_rounds C vrec _ C1 b1 Hb1) as Hr. rewrite G1, gen_round in Hr.
     apply (chains_agree C vrec vrec_unique (s_chain s1) (s_chain s2) C1 C2 Ne1 Ne2 (eq_trans G1 (eq_sym G2))
              (Z.to_nat (b_round b1)) b1 b2 Hb1 Hb2); [|auto].
